@@ -1,6 +1,6 @@
 """C01 — events run in time-then-priority order; clock monotone; at most once; run(d) semantics."""
 from engines import envmachine, e1gen, e3gen, linefuzz
-from vlib.runner import Search, Violation, repo_frames
+from vlib.runner import Search, Machine, Violation, repo_frames
 
 ID = 'C01'
 WATCHDOG_IS_VIOLATION = True   # the statement says the run ends / the line reaches its horizon
@@ -27,9 +27,11 @@ MIX = [('general', 4), ('contention', 2), ('interrupt', 2), ('groups', 1), ('buf
 def phases(tier):
     if tier == 'quick':
         return [Search('hypothesis-histories', lambda: e1gen.cases(40), 1500, shards=4, tag='histories'),
-                Search('device-models', lambda: e3gen.specs(MIX), 100, shards=4, tag='models')]
+                Search('device-models', lambda: e3gen.specs(MIX), 100, shards=4, tag='models'),
+                Machine('stateful-machine', envmachine.env_machine(('C01',), summarise), 250, 40, shards=4)]
     return [Search('hypothesis-histories', lambda: e1gen.cases(80), 3000, shards=16, tag='histories'),
-            Search('device-models', lambda: e3gen.specs(MIX), 800, shards=16, tag='models')]
+            Search('device-models', lambda: e3gen.specs(MIX), 800, shards=16, tag='models'),
+            Machine('stateful-machine', envmachine.env_machine(('C01',), summarise), 1500, 80, shards=16)]
 
 
 def on_repo_exception(case, e):
@@ -47,7 +49,10 @@ def run_case(case, ctx):
         ties = mon.c['prio_ties']
         return {'nontrivial': ties > 0 and mon.c['events'] > 30, 'classes': ['model-run'] + (['model-priority-tie'] if ties else []),
                 'counters': {'dispatches': mon.c['events'], 'prio_ties': ties}}
-    m = envmachine.run(case, ('C01',))
+    return summarise(envmachine.run(case, ('C01',)))
+
+
+def summarise(m):
     c = m.c
     classes = []
     if c['prio_ties']:
